@@ -24,6 +24,7 @@ func init() {
 func driveH2C(c *ctx) {
 	rng := rand.New(rand.NewSource(c.seed))
 
+	steer := ""
 	suite := func(name string, dst, msg []byte, vector bool) {
 		f := h2c.Secp256k1_XMD_SHA256_SSWU_RO
 		if name == "NU" {
@@ -35,6 +36,10 @@ func driveH2C(c *ctx) {
 			o = hx(p.UncompressedBytes())
 			p2, _ := f(dst, msg)
 			again = hx(p2.UncompressedBytes())
+		}
+		if steer != "" {
+			c.E("h2c.Suite", "suite", name, "dst", hx(dst), "msg", hx(msg), "ok", err == nil, "out", o, "again", again, "vector", vector, "steer", steer)
+			return
 		}
 		c.E("h2c.Suite", "suite", name, "dst", hx(dst), "msg", hx(msg), "ok", err == nil, "out", o, "again", again, "vector", vector)
 	}
@@ -77,6 +82,41 @@ func driveH2C(c *ctx) {
 				suite("NU", dst, nil, false)
 			}
 		}
+	}
+	// messages searched (with an untrusted expand_message_xmd) until a hash_to_field element has one or two zero leading bytes, or
+	// lies in [p, 2^256) before... no: elements are 48-byte strings reduced mod p; the REDUCED element is what is steered here
+	{
+		dst := []byte("QUUX-V01-CS02-with-secp256k1_XMD:SHA-256_SSWU_RO_")
+		steer = "u_short"
+		for _, sn := range []string{"RO", "NU"} {
+			n := 96
+			if sn == "NU" {
+				n = 48
+			}
+			for _, zeros := range []int{1, 1, 1, 2} {
+				if zeros == 2 && !c.thorough() && sn == "RO" {
+					continue
+				}
+				bound := pow2(uint(256 - 8*zeros))
+				for ctr := 0; ctr < 300000; ctr++ {
+					msg := []byte("steered-" + itoa(ctr) + "-" + itoa(int(c.seed)) + sn + itoa(zeros))
+					ub := xmdSHA256(msg, dst, n)
+					hit := false
+					for i := 0; i < n/48; i++ {
+						if new(big.Int).Mod(new(big.Int).SetBytes(ub[48*i:48*i+48]), bigP).Cmp(bound) < 0 {
+							hit = true
+						}
+					}
+					if hit {
+						suite(sn, dst, msg, false)
+						dst = append([]byte{}, dst[:len(dst)-1]...) // another tag for the next search
+						dst = append(dst, byte('A'+ctr%26))
+						break
+					}
+				}
+			}
+		}
+		steer = ""
 	}
 	// tags whose LENGTH only fits wider integers: around 2^16 and 2^17, and lengths that are small modulo 2^8 / 2^16
 	// (every tag longer than 255 bytes is hashed down first; its length is never serialized)
